@@ -315,7 +315,31 @@ def _run_shard(args):
     except HarnessError as e:
         return {"harness_error": f"{spec}: {e}\n{traceback.format_exc()}"}
     except BaseException as e:  # noqa: BLE001
+        tb = traceback.extract_tb(e.__traceback__)
+        frames = [f for f in tb if f.filename.startswith(env.LIB + os.sep)]
+        if frames and not isinstance(e, (KeyboardInterrupt, SystemExit, MemoryError)):
+            # the library itself raised during an operation every check generates only validly:
+            # that is the library's failure, not the harness's
+            last = frames[-1]
+            return {"lib_exception": {
+                "what": "library_raised_unexpectedly",
+                "error": f"{type(e).__name__}: {str(e)[:300]}",
+                "where": f"{os.path.relpath(last.filename, env.REPO)}:{last.lineno} in {last.name}",
+                "traceback_tail": traceback.format_exc()[-1500:],
+            }, "spec": spec, "seed": seed, "tier": tier, "module": modname}
         return {"harness_error": f"{spec}: {type(e).__name__}: {e}\n{traceback.format_exc()}"}
+
+
+def replay_shard(case):
+    """Replay of a 'library raised unexpectedly' finding: re-run the deterministic shard."""
+    r = _run_shard((case["module"], case["spec"], case["seed"], case["tier"], []))
+    if "lib_exception" in r:
+        return r["lib_exception"]
+    if "harness_error" in r:
+        raise HarnessError(r["harness_error"])
+    if r.get("failures"):
+        return r["failures"][0]["desc"]
+    return None
 
 
 def run_property(mod, tier, seed, nproc=None, only_shards=None):
@@ -370,6 +394,11 @@ def run_property(mod, tier, seed, nproc=None, only_shards=None):
         ctx = mp.get_context("fork")
         with cf.ProcessPoolExecutor(max_workers=nproc, mp_context=ctx) as ex:
             results = list(ex.map(_run_shard, jobs))
+    for r in [r for r in results if "lib_exception" in r]:
+        c = {"property": prop, "engine": "shard", "module": r["module"], "spec": r["spec"],
+             "seed": r["seed"], "tier": r["tier"]}
+        violations.append((save_replay(prop, c, r["lib_exception"]), r["lib_exception"]))
+    results = [r for r in results if "lib_exception" not in r]
     herr = [r["harness_error"] for r in results if "harness_error" in r]
     if herr:
         for h in herr:
